@@ -979,8 +979,19 @@ func mFormatFloat(fr *frame, args []value) (value, bool) {
 func mParseFloat(fr *frame, args []value) (value, bool) {
 	s, ok := args[0].(string)
 	if !ok {
-		cur.outOfModel("strconv.ParseFloat of symbolic digits")
-		cur.abort("out-of-model", "strconv.ParseFloat of symbolic digits")
+		// symbolic digits: the lexer has already confined every byte to the
+		// number alphabet, so concretising byte by byte forks a bounded number
+		// of times; the conversion itself is then the real strconv.
+		bs := strBytes(args[0])
+		cb := make([]byte, len(bs))
+		for i, b := range bs {
+			if t, ok := b.(*Term); ok {
+				cb[i] = byte(cur.concretize(t, "ParseFloat digit"))
+			} else {
+				cb[i] = b.(uint8)
+			}
+		}
+		s = string(cb)
 	}
 	f, err := strconv.ParseFloat(s, int(concInt(args[1], "bitSize")))
 	if err == nil {
